@@ -15,13 +15,17 @@ import (
 func genSeries(maxLen int) *rapid.Generator[[]float64] {
 	return rapid.Custom(func(t *rapid.T) []float64 {
 		n := rapid.OneOf(rapid.IntRange(0, 12), rapid.IntRange(0, maxLen)).Draw(t, "len")
-		kind := rapid.IntRange(0, 5).Draw(t, "value kind")
+		kind := rapid.IntRange(0, 6).Draw(t, "value kind")
 		offset := rapid.SampledFrom([]float64{1e6, 1e9, 1e12, 1e15, -1e9, 16777216}).Draw(t, "offset")
 		x := make([]float64, n)
 		for i := range x {
 			switch kind {
 			case 5: // a large common offset and a small spread (all values exactly representable)
 				x[i] = offset + float64(rapid.IntRange(-8, 8).Draw(t, "v"))
+			case 6: // both ends of the float64 range (order statistics are exact there; sums may overflow and are then not compared)
+				// (at most 400 values of magnitude 1e300: the sum stays below the largest float64 - a series whose float64 sum
+				// overflows has no representable textbook sum, and its mean and variance are derived from that sum; DESIGN 5.2)
+				x[i] = rapid.SampledFrom([]float64{1e300, -1e300, 9.9e299, -3e299, 5e-324, -5e-324, 2.2250738585072014e-308, 1e-310, 0, 1}).Draw(t, "v")
 			case 0: // small integers, many duplicates
 				x[i] = float64(rapid.IntRange(-5, 5).Draw(t, "v"))
 			case 1:
